@@ -135,7 +135,7 @@ def run(ctx):
         nb = 3 if i % 3 else 4
         try:
             card = cards.CardGen(rng, tag, nbody=nb, n_chains=(2, 3), final_j2=(0, 1, 1, 2) if nb == 3 else (0, 0, 1, 2),
-                                 res_per_slot=(1, 2) if nb == 3 or i % 2 == 0 else (1, 1), models=MODELS5, decay_opts_prob=0.2).make()
+                                 res_per_slot=(2, 2) if i % 5 == 2 else ((1, 2) if nb == 3 or i % 2 == 0 else (1, 1)), models=MODELS5, decay_opts_prob=0.2).make()
             # every fourth card: CP-violating chain couplings (decay_chain: {$all: {is_cp: True}}) and events of both charges
             cp_card = i % 4 == 1
             if cp_card:
